@@ -19,6 +19,7 @@ PackOK(ev) ==
   /\ RoundTrips(Dec(ev.value, ev.type), ev.type)          \* the model agrees that this value round-trips
 UnpackOK(ev) ==
   ev.ok => /\ ev.compat /\ Len(ev.v) = 1 /\ WellShaped(ev.v[1], ev.type)
-PropC16 == CASE seen.e = "Pack" -> PackOK(seen) [] seen.e = "Unpack" -> UnpackOK(seen) [] OTHER -> TRUE
+PropC16 == CASE seen.e = "Pack" -> PackOK(seen) [] seen.e = "Unpack" -> UnpackOK(seen) [] seen.e = "Fault" -> FALSE   \* the recorded execution crashed / threw / hung
+             [] OTHER -> TRUE
 TraceAccepted == TLCGet("stats").diameter - 1 = Len(TraceLog)
 =============================================================================
